@@ -107,9 +107,18 @@ def proc_ids(pid):
     return out
 
 
+def ignore_master_signals():
+    import signal
+    for name in ("SIGCHLD", "SIGHUP", "SIGQUIT", "SIGINT", "SIGTERM", "SIGTTIN", "SIGTTOU", "SIGUSR1", "SIGUSR2", "SIGWINCH"):
+        signal.signal(getattr(signal, name), signal.SIG_IGN)
+
+
 class Server:
     def __init__(self, worker_class="sync", workers=1, threads=None, args=(), bind="tcp", pidfile=False,
-                 config=None, env=None, name="srv", daemon=False, tls=False, release=False, relcfg=False):
+                 config=None, env=None, name="srv", daemon=False, tls=False, release=False, relcfg=False, ignsig=False):
+        # ignsig: the starter leaves the signals the master uses set to "ignore" (nohup, cron-style launchers, a wrapper that
+        # ignores SIGCHLD not to collect zombies); dispositions set to ignore are inherited across fork and exec
+        self.ignsig = ignsig
         self.dir = tempfile.mkdtemp(prefix=name + "_", dir=_scratch())
         self.port = None
         self.sockpath = None
@@ -222,6 +231,7 @@ class Server:
         self.t0 = time.time()
         self.proc = subprocess.Popen(self.cmd, cwd=self.cwd, env=self.env, stdout=subprocess.DEVNULL,
                                      pass_fds=[self._lsock.fileno()] if self._lsock else (),
+                                     preexec_fn=ignore_master_signals if self.ignsig else None,
                                      stderr=subprocess.DEVNULL)
         deadline = time.time() + timeout
         if self.daemon:
